@@ -4,6 +4,32 @@ import json, os, sys
 HERE = os.path.dirname(os.path.dirname(os.path.abspath(__file__)))
 
 CHECKS = {
+ "C14": dict(
+   technique="Hypothesis rule-based state machine over compilation histories with injected failing compilations; baseline from a pristine process",
+   text="A RuleBasedStateMachine drives two Compiler instances of one process with random interleavings of successful compilations (two "
+        "entry points: compile_c_stmt and transform_insn), failing compilations of eleven kinds (parse errors, unsupported constructs, type "
+        "errors, failures with a pending hybrid or visited attribute constructs) and sub-routine registrations. After every successful step "
+        "the normalised text (comments dropped, h_tmpN renamed by first occurrence) and the attribute list are compared with the subject's "
+        "baseline: the same subject compiled first on a fresh compiler in its own process.",
+   note="Histories are sampled, not enumerated. Compilers persist across machine runs (a longer history is still a history); the replay "
+        "file contains the complete operation log since the compilers were created.",
+   design="7/C14"),
+ "C15": dict(
+   technique="metamorphic insertion of unsupported constructs into generated programs + grammar-based generation (hypothesis.extra.lark)",
+   text="Each of 14 statement-level and 10 expression-level unsupported constructs is inserted into Hypothesis-generated supported "
+        "programs at generated positions (between statements, in if/else arms, loop bodies, operand positions): the compiler must raise. "
+        "Every returned text is scanned for effect variables that are declared but unreachable from the returned effect; sentences drawn "
+        "from the full bundled grammar that are accepted must not contain the keywords of unsupported statements; edge-of-dialect templates "
+        "(chained assignments, brace-less bodies) must be reachable and agree with the C reference.",
+   note="Any exception counts as rejection. Trusted: reader/usage counter of vlib/il/static.py; the construct list is the property's.",
+   design="7/C15"),
+ "C16": dict(
+   technique="differential execution of the two output layouts on generated states + validity predicates on both texts",
+   text="Every subject (accepted corpus part, Hypothesis program with branches, loops and hybrids) is compiled by a READ_STATEMENTS and an "
+        "EXEC_CLASSES compiler: acceptance and attribute lists must agree, both texts must satisfy the C-body and ownership predicates, and "
+        "the RzIL interpreter must reach identical final states from the same generated machine states.",
+   note="Equality is semantic, not textual. Float/HVX parts are compared for acceptance, attributes and well-formedness only.",
+   design="7/C16"),
  "C13": dict(
    technique="generated histories of compilations judged against a token-level attribute oracle (reference function of the text)",
    text="Accepted corpus parts and generated programs combining if / .new / load / store / JUMP / predicate writes are compiled in "
